@@ -14,7 +14,8 @@ Inductive xout :=
 Inductive obs :=
 | XQ (q : list (ts * amap))               (* commit / restore: every query result afterwards *)
 | XPub (did : bool)
-| XSub (err : bool) (reqidx : N)          (* subscribe: failed?, index the materializer put in the request *)
+| XSub (err : bool) (reqidx : N) (p : path) (* subscribe: failed?, index the materializer put in the request,
+                                             way Subscribe went (read from the publisher's state) *)
 | XNext (o : xout) (cidx : N) (view : amap)
 | XNoSub
 | XUnsub.
@@ -47,6 +48,12 @@ Definition out_matches (o : out) (x : xout) : bool :=
   | _, _ => false
   end.
 
+Definition path_eqb (a b : path) : bool :=
+  match a, b with
+  | PErr, PErr | PResume, PResume | PCache, PCache | PBuild, PBuild => true
+  | _, _ => false
+  end.
+
 Definition label_client (l : label) : N :=
   match l with
   | LSubscribe c _ _ _ _ => c
@@ -72,8 +79,9 @@ Definition check_step (st : state) (s : cstep) : bool * state :=
         match cs_obs s, l with
         | XQ q, (LCommit _ | LRestore _ _) => check_q st' q
         | XPub did, LPublish => match o with OPub d => Bool.eqb d did | _ => false end
-        | XSub err reqidx, LSubscribe c _ _ _ _ =>
+        | XSub err reqidx p, LSubscribe c T _ _ _ =>
             N.eqb (sub_idx st c) reqidx &&
+            path_eqb (sub_path (fst (do_unsub st c)) (sub_ts st c T) (sub_idx st c)) p &&
             match o with OSubErr => err | OSubOk => negb err | _ => false end
         | XNext x cidx view, LNext c =>
             out_matches o x &&
@@ -109,28 +117,42 @@ Definition diag (c : case) : option N :=
       then None else Some 1000%N
   end.
 
-(* steps at which the implementation's environment broke the assumption of the theorems ([step_ok]):
-   (breaks of the query-index clause at Subscribe steps, breaks of the other clauses) *)
-Fixpoint breaks_from (st : state) (l : list cstep) : N * N :=
+(* steps at which the implementation's environment broke the assumption of the theorems ([step_ok]), by class:
+   a = a Subscribe on a service-health topic (0, 1) whose query index is behind a commit of its subject
+       (the recorded finding query-index-behind-content);
+   r = a commit whose raft index is not above the previous one (or is 1);
+   x = anything else (query index ahead of the raft index, an understated index on another topic, a
+       restored store with two rows for one key) *)
+Definition break_class (st : state) (lb : label) : N :=
+  if step_ok st lb then 0
+  else match lb with
+       | LCommit _ => 2
+       | LSubscribe c T _ _ qidx =>
+           if N.ltb (fst (sub_ts st c T)) 2 && N.leb qidx (st_hi st) then 1 else 3
+       | _ => 3
+       end%N.
+
+Fixpoint breaks_from (st : state) (l : list cstep) : N * N * N :=
   match l with
-  | [] => (0, 0)
+  | [] => (0, 0, 0)
   | s :: r =>
       match cs_label s with
       | None => breaks_from st r
       | Some lb =>
-          let '(a, b) := breaks_from (fst (step st lb)) r in
-          if step_ok st lb then (a, b)
-          else match lb with LSubscribe _ _ _ _ _ => (a + 1, b) | _ => (a, b + 1) end
+          let '(a, b, x) := breaks_from (fst (step st lb)) r in
+          match break_class st lb with
+          | 0 => (a, b, x) | 1 => (a + 1, b, x) | 2 => (a, b + 1, x) | _ => (a, b, x + 1)
+          end
       end
   end%N.
 
 (* per case: 0 when model and implementation agree, else 1 + the index of the first disagreeing step
-   (1001 = the final counters); the numbers of assumption breaks *)
-Definition report (c : case) : N * N * N :=
-  let '(a, b) := breaks_from (init (cc_cache c)) (cc_steps c) in
-  (match diag c with None => 0 | Some n => n + 1 end, a, b)%N.
+   (1001 = the final counters); the numbers of assumption breaks by class *)
+Definition report (c : case) : N * N * N * N :=
+  let '(a, b, x) := breaks_from (init (cc_cache c)) (cc_steps c) in
+  (match diag c with None => 0 | Some n => n + 1 end, a, b, x)%N.
 
-Definition reports (cs : list case) : list (N * N * N) := map report cs.
+Definition reports (cs : list case) : list (N * N * N * N) := map report cs.
 
 Definition check (c : case) : bool := match diag c with None => true | Some _ => false end.
 Definition mismatches (cs : list case) : list N := failing check cs.
